@@ -140,6 +140,60 @@ def second_command_in_stamp_window(viol):
         pr.destroy()
 
 
+def conditional_stamp_scenario(viol):
+    """A target that records a checksum in some builds only (cfg.do stamps when `mode` says so): stamped with data X, then
+    built without redo-stamp with other content, then stamped with X again.  The third build changes cfg; the dependent
+    must be rebuilt before the command returns success (the checksum of the first build must not be the one compared)."""
+    from proj import Project
+    pr = Project()
+    try:
+        pr.write("all.do", "redo-ifchange app\n")
+        pr.write("app.do", 'redo-ifchange cfg\necho "app built from: $(cat cfg)" >$3\n')
+        pr.write("cfg.do", 'redo-ifchange mode input\nif [ "$(cat mode)" = stamped ]; then cat input >$3; redo-stamp <$3; else echo "plain: $(cat input)" >$3; fi\n')
+        pr.write("input", "v1\n")
+        hist = []
+        for mode in ("stamped", "plain", "stamped", "plain", "stamped"):
+            pr.write("mode", mode + "\n")
+            rc, o, e = pr.run(["redo", "all"], timeout=60)
+            cfg = (pr.read("cfg") or b"").decode().strip()
+            app = (pr.read("app") or b"").decode().strip()
+            hist.append((mode, rc, cfg, app))
+            if rc != 0 or app != "app built from: " + cfg:
+                p = write_replay("C03", "conditional-stamp", dict(kind="impl-monitor", clause="when its checksum does change, every dependent is rebuilt before the same top-level command returns success", history=hist,
+                                                                  scenario="cfg.do: redo-ifchange mode input; stamped mode: cat input >$3; redo-stamp <$3; plain mode: echo plain: … >$3.  app.do: redo-ifchange cfg.  redo all with mode = stamped, plain, stamped, plain, stamped"))
+                viol.append(Violation("C03", p, "a target that stamps in some builds only: after `redo all` (exit %d, mode %s) cfg holds %r but app holds %r" % (rc, mode, cfg, app)))
+                return
+    finally:
+        pr.destroy()
+
+
+def killed_second_phase_scenario(viol):
+    """The process that has to rebuild the dependent after an out-of-band rebuild changed the checksum is killed by a
+    signal (app.do kills the redo-ifchange that runs it — think OOM killer).  The dependent is then NOT rebuilt, so the
+    top-level command must not return success."""
+    from proj import Project
+    pr = Project()
+    try:
+        pr.write("all.do", "redo-ifchange app\n")
+        pr.write("app.do", 'redo-ifchange ver\nif [ -e killme ]; then rm -f killme; echo $PPID >killed; kill -9 $PPID; exit 0; fi\necho "app built from: $(cat ver)" >$3\n')
+        pr.write("ver.do", "redo-ifchange src\ncat src >$3\nredo-stamp <$3\n")
+        pr.write("src", "v1\n")
+        rc1, o, e = pr.run(["redo", "all"], timeout=60)
+        pr.write("src", "v2\n")
+        pr.write("killme", "")
+        rc2, o2, e2 = pr.run(["redo", "all"], timeout=60)
+        import time
+        time.sleep(0.3)
+        ver = (pr.read("ver") or b"").decode().strip()
+        app = (pr.read("app") or b"").decode().strip()
+        if rc1 == 0 and pr.read("killed") is not None and rc2 == 0 and app != "app built from: " + ver:
+            p = write_replay("C03", "killed-second-phase", dict(kind="impl-monitor", clause="when its checksum does change, every dependent is rebuilt before the same top-level command returns success", rc=rc2, ver=ver, app=app, stderr=e2[-800:],
+                                                                scenario="ver.do stamps src; app.do: redo-ifchange ver; on the rebuild after the edit app.do kills its own redo-ifchange (kill -9 $PPID) and exits"))
+            viol.append(Violation("C03", p, "the process rebuilding the dependent after a checksum change was killed by a signal: `redo all` exits 0, ver holds %r, app holds %r" % (ver, app)))
+    finally:
+        pr.destroy()
+
+
 def run(ctx):
     cov = deps_check.run_property(ctx, "C03", FEATURES["C03"], NCASES["C03"], WANT["C03"], known_matcher=KNOWN.get("C03"))
     viol = ctx.setdefault("violations", [])
@@ -152,4 +206,10 @@ def run(ctx):
     if not viol and not ctx.get("replay"):
         second_command_in_stamp_window(viol)
         cov["directed_scenarios"] = 3
+    if not viol and not ctx.get("replay"):
+        conditional_stamp_scenario(viol)
+        cov["directed_scenarios"] = 4
+    if not viol and not ctx.get("replay"):
+        killed_second_phase_scenario(viol)
+        cov["directed_scenarios"] = 5
     return cov
